@@ -189,17 +189,37 @@ func runComposeHist(sw *shardWriter, j *jb, data []byte, segs []seg, pre []seg, 
 	data = relayout(data)
 	orig := append([]byte{}, data...)
 	rng := rand.New(rand.NewSource(seed))
-	pg := mkProg(kind, rng, shareBuf)
+	// kinds 100, 200, 400: the *top-level* value itself (leading whitespace included, as in a stream of records) is
+	// handed to SkipValue / SkipValueFast / ValueReader.ReadValue, the way the members are handed to them in a handler
+	top := kind / 100
+	pg := mkProg(kind%100, rng, shareBuf)
+	if top > 0 {
+		inner := pg.next
+		first := true
+		pg.next = func() int {
+			if first {
+				first = false
+				return top
+			}
+			return inner()
+		}
+	}
 	panics := 0
 	if pre != nil {
-		first := mkProg(kind, rand.New(rand.NewSource(seed+1)), shareBuf)
+		first := mkProg(kind%100, rand.New(rand.NewSource(seed+1)), shareBuf)
 		first.buf = pg.buf
 		guardPanic(&panics, func() { first.typed(expandSegs(pre), false) })
 	}
 	var v interface{}
 	var p int
 	var err error
-	guardPanic(&panics, func() { v, p, err = pg.typed(data, false) })
+	guardPanic(&panics, func() {
+		if top > 0 {
+			v, p, err = pg.member(data)
+		} else {
+			v, p, err = pg.typed(data, false)
+		}
+	})
 	ok := err == nil && panics == 0
 	full := ok && !hasSkipped(v)
 	allValidatingReads := true // every member read by a validating *reader* (not skipped, not fast)
@@ -269,10 +289,23 @@ func genCompose(c *genCtx) error {
 		}
 		runCompose(c.sw, &j, d, 6, int64(c.rng.Intn(1<<30)), true, c.st)
 		runCompose(c.sw, &j, d, 7, int64(c.rng.Intn(1<<30)), true, c.st)
+		// the top-level value through the skip functions and the generic reader, with whitespace in front of it
+		for _, ws := range []string{"", " ", "\n\t ", "        "} {
+			if ws != "" && !c.thorough() && c.rng.Intn(2) == 0 {
+				continue
+			}
+			dd := append([]byte(ws), d...)
+			for _, k := range []int{100, 200, 400} {
+				runCompose(c.sw, &j, dd, k, int64(c.rng.Intn(1<<30)), c.rng.Intn(2) == 0, c.st)
+			}
+		}
 	}
 	if c.want("shapes") {
 		for _, d := range treeShapes(c) {
 			all(d)
+		}
+		for _, s := range []string{`"s"`, `"a\nb"`, `"\u00e9"`, `""`, "12", "-0.5e3", "true", "false", "null", "[]", "{}", `["s"]`, `{"a":"s"}`, `"unterminated`, "tru", "-"} {
+			all([]byte(s))
 		}
 	}
 	// depth: decoders that recurse through the handlers on documents at and just below the nesting limit, with a
